@@ -317,7 +317,8 @@ def c01_streams(tier, rng):
             StreamSet("scale", "asan", scale_cases(tier, rng, scale_ops_roundtrip), timeout=600),
             StreamSet("full-tables", "asan", full_table_cases(tier, rng), timeout=600),
             StreamSet("fm-layer", "asan", fm_cases(tier, rng, 24 if tier == "thorough" else 6), phase2=fm_phase2, timeout=90),
-            StreamSet("rpfc-layer", "asan", rpfc_cases(tier, rng, 24 if tier == "thorough" else 6), phase2=rpfc_phase2, timeout=90)]
+            StreamSet("rpfc-layer", "asan", rpfc_cases(tier, rng, 24 if tier == "thorough" else 6), phase2=rpfc_phase2, timeout=90),
+            StreamSet("blocks-image", "asan", blkimg_cases(tier, rng, 30 if tier == "thorough" else 10), phase2=blkimg_phase2, timeout=90)]
 
 
 PROPS["C01"] = PropSpec(
@@ -880,7 +881,8 @@ def c10_streams(tier, rng):
 
 
 def c09_streams(tier, rng):
-    return [StreamSet("blocksdet", "asan", blocks_cases(tier, rng, "bd"), timeout=400)]
+    return [StreamSet("blocksdet", "asan", blocks_cases(tier, rng, "bd"), timeout=400),
+            StreamSet("blocks-image", "asan", blkimg_cases(tier, rng, 30 if tier == "thorough" else 10), phase2=blkimg_phase2, timeout=90)]
 
 
 def c11_streams(tier, rng):
@@ -1631,6 +1633,45 @@ def bvls_cases(tier, rng, k):
             continue
         for ov in ((0, 25, 100) if tier == "thorough" else (r.choice([0, 25]),)):
             cases.append(("bv_%s_%d" % (name, ov), "bvls", "HASHUFFDAC", {"ov": ov}, S, [["bv"], ["reload"], ["bv"]]))
+    return cases
+
+
+
+def blkimg_phase2(case, impl_lines):
+    """The saved image of a real block dictionary -> the Lean validator (model loader / writer, counters)."""
+    strs = ",".join(hx(s) for s in case[4]) or "-"
+    ops = []
+    k = 0
+    for l in impl_lines:
+        t = l.split()
+        if k >= len(case[5]):
+            break
+        if len(t) >= 6 and t[1] == "BI":
+            d = dict(x.split("=", 1) for x in t[2:])
+            ops.append(["bichk", strs] + [d.get(f, "-") for f in ("img", "ml", "cs", "sq", "np", "firsts", "starts", "pel")])
+            k += 1
+        elif len(t) >= 2 and t[1] == "RQ":
+            ops.append(["rdskip"])
+            k += 1
+        elif not l.startswith("FAULT"):
+            ops.append(["bichk", strs] + ["-"] * 8)
+            k += 1
+    while len(ops) < len(case[5]):
+        ops.append(["bichk", strs] + ["-"] * 8)
+    return ops
+
+
+def blkimg_cases(tier, rng, k):
+    cases = []
+    r = rng.fork("blkimg")
+    for name, S in small_battery(tier, rng, k):
+        total = sum(len(s) + 1 for s in S)
+        if total > 4000 or len(S) < 2:
+            continue
+        cuts = sorted(set([1, 8, max(1, total // 3), total, total + 10]))
+        for cut in (cuts if tier == "thorough" else r.sample(cuts, min(2, len(cuts)))):
+            cases.append(("bk_%s_c%d" % (name, cut), "blkimg", "BLOCKS", {"ov": r.choice([0, 25]), "cut": cut, "thr": r.choice([1, 2, 3])}, S,
+                          [["bi"], ["reload"], ["bi"]]))
     return cases
 
 
